@@ -8,7 +8,8 @@ import numpy as np
 
 from typhon import constants
 
-from checks.c09_util import (SCALAR, U, atmosphere, call, evaluate, failures)
+from checks.c09_util import (PER_VALUE, U, atmosphere, call, evaluate,
+                              failures)
 
 TT = constants.triple_point_water
 TB = TT - 23.0        # lower branch temperature (exact, see lattice)
@@ -52,16 +53,56 @@ def in_blend(t):
     return TB - 4 * math.ulp(TB) <= t <= TT + 4 * math.ulp(TT)
 
 
+REGIMES = {"all": lambda t: True, "ice": lambda t: t < TB,
+           "blend": lambda t: TB <= t <= TT, "liquid": lambda t: t > TT}
+
+
+def sublattice(per_kelvin, regime):
+    return [t for t in lattice(per_kelvin) if REGIMES[regime](t)]
+
+
+def regimes(container):
+    """An array container holds the whole lattice and, in further calls, only
+    the part of it within one branch of the mixed-phase formula; for one
+    value per call that would repeat the same calls."""
+    return ("all",) if container in PER_VALUE else tuple(REGIMES)
+
+
+def lattice_violations(container, per_kelvin):
+    """The relations within the array(s) of each regime; every element of a
+    part must get the value it got within the whole lattice (to 2 NOISE:
+    numpy may evaluate exp differently for other array lengths). Yields
+    (regime, temps, violation)."""
+    whole = {}
+    for regime in regimes(container):
+        temps = sublattice(per_kelvin, regime)
+        out = {name: evaluate(getattr(atmosphere(), name), container, temps)
+               for name in SAT}
+        for bad in relations(container, temps, out):
+            yield regime, temps, bad
+        for name in SAT:
+            for i, (t, e) in enumerate(zip(temps, out[name])):
+                ref = whole.setdefault((name, t), e)
+                if isinstance(e, float) and isinstance(ref, float) and \
+                        not abs(e - ref) <= 2 * NOISE * ref:
+                    yield regime, temps, (
+                        "sat/%s/depends-on-other-elements" % name, [i], ref,
+                        e, "array of the %s temperatures only" % regime)
+
+
 def sat_violations(container, temps):
     """All relations of the statement on the sorted temperatures `temps`,
     evaluated in one container. case = indices into temps (None: the whole
-    array call)."""
-    atm = atmosphere()
-    out = {name: evaluate(getattr(atm, name), container, temps)
-           for name in SAT}
+    array call failed)."""
+    return relations(container, temps, {
+        name: evaluate(getattr(atmosphere(), name), container, temps)
+        for name in SAT})
+
+
+def relations(container, temps, out):
     for name in SAT:
         for i, key, obs in failures(name, out[name]):
-            yield (key, [i] if container in SCALAR else None,
+            yield (key, [i] if container in PER_VALUE else None,
                    "a positive pressure", obs, "")
     ice, liq, mix = (out[name] for name in SAT)
 
@@ -175,36 +216,40 @@ def grids(container, *axes):
 
 # -- RH <-> VMR --------------------------------------------------------------
 
+# How the saturation function is handed over: (args, kwargs) after v, p, T.
+E_EQ_FORMS = {"positional": lambda e_eq: ((e_eq,), {}),
+              "keyword": lambda e_eq: ((), {"e_eq": e_eq})}
 RH_FUNCS = {"rh->vmr->rh": ("relative_humidity2vmr", "vmr2relative_humidity"),
             "vmr->rh->vmr": ("vmr2relative_humidity", "relative_humidity2vmr")}
 
 
-def rh_violations(ename, container, direction, values, ps, ts):
+def rh_violations(ename, container, direction, form, values, ps, ts):
     """Round trip of every value at every (p, T): two roundings per
     conversion, so the value must come back to 8 U relative."""
     atm = atmosphere()
-    e_eq = saturation_functions()[ename]
     first, second = (getattr(atm, n) for n in RH_FUNCS[direction])
+    args, kwargs = E_EQ_FORMS[form](saturation_functions()[ename])
 
     def round_trip(v, p, t):
-        return second(first(v, p, t, e_eq), p, t, e_eq)
+        return second(first(v, p, t, *args, **kwargs), p, t, *args, **kwargs)
 
-    for args, points in grids(container, values, ps, ts):
-        back = call(round_trip, *args)
+    for arrays, points in grids(container, values, ps, ts):
+        back = call(round_trip, *arrays)
         for i, key, obs in failures(direction, back):
-            yield (key, rh_case(ename, container, direction, points[i]),
+            yield (key, rh_case(ename, container, direction, form, points[i]),
                    "a number", obs, "")
         for point, got in zip(points, back):
             if isinstance(got, float) and \
                     not abs(got - point[0]) <= 8 * U * point[0]:
                 yield ("rh/not-inverse/" + direction,
-                       rh_case(ename, container, direction, point),
+                       rh_case(ename, container, direction, form, point),
                        point[0], got, "")
 
 
-def rh_case(ename, container, direction, point):
+def rh_case(ename, container, direction, form, point):
     return dict(part="rh", e_eq=ename, container=container,
-                direction=direction, value=point[0], p=point[1], T=point[2])
+                direction=direction, form=form, value=point[0], p=point[1],
+                T=point[2])
 
 
 # -- moist lapse rate --------------------------------------------------------
@@ -218,7 +263,10 @@ def lapse_domain(ename, ps, ts):
     r = constants.molar_mass_water / constants.molar_mass_dry_air
     out = {}
     for p, t in itertools.product(ps, ts):
-        x = float(e_eq(t)) / p
+        e = call(e_eq, t)[0]      # a failure is reported by the 'sat' part
+        if not isinstance(e, float):
+            continue
+        x = e / p
         if 0 <= x < 1:
             b = constants.heat_of_vaporization ** 2 / (
                 constants.isobaric_mass_heat_capacity
